@@ -71,7 +71,112 @@ struct Intended {
     previous: BTreeSet<Hash>,
 }
 
-fn gen_intended(rng: &mut Rng, causal: bool, n_prev: usize) -> (Intended, Vec<Hash>) {
+/// How the hashes of a Causal `previous` set are chosen. A hash is just 32 bytes on the wire, so a
+/// remote peer picks them freely: besides real BLAKE3 digests the workload contains crafted
+/// families whose members agree on long prefixes (an encoder ordering by anything less than all 32
+/// bytes ties on them).
+const FAMILIES: [&str; 7] = [
+    "real-digests",
+    "shared-prefix-k",      // k in {1, 4, 8, 16, 31} leading bytes equal, rest random
+    "differ-in-last-byte",  // 31 bytes equal
+    "differ-in-one-middle-byte",
+    "extremes",             // all-zero, all-0xff and neighbours of them
+    "crafted-and-real-mix", // a shared-prefix group among real digests
+    "two-prefix-groups",    // two groups, each sharing 8..16 leading bytes
+];
+
+fn crafted_previous(rng: &mut Rng, family: usize, n: usize) -> Vec<Hash> {
+    let mut out: Vec<[u8; 32]> = Vec::new();
+    let mut push = |out: &mut Vec<[u8; 32]>, h: [u8; 32]| {
+        if !out.contains(&h) {
+            out.push(h);
+        }
+    };
+    let real = |rng: &mut Rng| -> [u8; 32] { *Hash::digest(rng.bytes(12)).as_bytes() };
+    let with_prefix = |rng: &mut Rng, base: &[u8; 32], k: usize| -> [u8; 32] {
+        let mut h = rng.array32();
+        h[..k].copy_from_slice(&base[..k]);
+        h
+    };
+    let base = if rng.bool() { real(rng) } else { rng.array32() };
+    let mut guard = 0;
+    while out.len() < n && guard < 10_000 {
+        guard += 1;
+        let h = match family {
+            0 => real(rng),
+            1 => {
+                let k = *rng.pick(&[1usize, 4, 8, 16, 31]);
+                with_prefix(rng, &base, k)
+            }
+            2 => {
+                let mut h = base;
+                h[31] = rng.below(256) as u8;
+                h
+            }
+            3 => {
+                let mut h = base;
+                let pos = 1 + rng.usize_below(30);
+                h[pos] = rng.below(256) as u8;
+                // Keep it a *single* differing byte relative to the base per member.
+                h
+            }
+            4 => match rng.below(6) {
+                0 => [0u8; 32],
+                1 => [0xffu8; 32],
+                2 => {
+                    let mut h = [0u8; 32];
+                    h[31] = 1 + rng.below(255) as u8;
+                    h
+                }
+                3 => {
+                    let mut h = [0xffu8; 32];
+                    h[31] = rng.below(255) as u8;
+                    h
+                }
+                4 => {
+                    let mut h = [0u8; 32];
+                    h[8 + rng.usize_below(24)] = 1 + rng.below(255) as u8;
+                    h
+                }
+                _ => {
+                    let mut h = [0xffu8; 32];
+                    h[rng.usize_below(32)] = rng.below(255) as u8;
+                    h
+                }
+            },
+            5 => {
+                if out.len() < 2 || rng.bool() {
+                    let k = *rng.pick(&[8usize, 16, 31]);
+                    with_prefix(rng, &base, k)
+                } else {
+                    real(rng)
+                }
+            }
+            _ => {
+                let mut b2 = base;
+                b2[0] ^= 0x80;
+                let k = 8 + rng.usize_below(9);
+                if out.len() % 2 == 0 { with_prefix(rng, &base, k) } else { with_prefix(rng, &b2, k) }
+            }
+        };
+        push(&mut out, h);
+    }
+    out.into_iter().map(Hash::from).collect()
+}
+
+/// Longest common prefix (in bytes) over all pairs of the set.
+fn max_shared_prefix(prev: &[Hash]) -> usize {
+    let mut best = 0;
+    for (i, a) in prev.iter().enumerate() {
+        for b in &prev[i + 1..] {
+            let l = a.as_bytes().iter().zip(b.as_bytes().iter()).take_while(|(x, y)| x == y).count();
+            best = best.max(l);
+        }
+    }
+    best
+}
+
+fn gen_intended(rng: &mut Rng, causal: bool, n_prev: usize, family: usize) -> (Intended, Vec<Hash>) {
     let topic = rng.array32();
     // "To keep topic itself private we derive it with a BLAKE3 digest" (LogId::from_topic).
     let log_id = if causal { Hash::digest(rng.bytes(8)) } else { Hash::digest(topic) };
@@ -80,7 +185,7 @@ fn gen_intended(rng: &mut Rng, causal: bool, n_prev: usize) -> (Intended, Vec<Ha
         1 => u64::MAX,
         _ => rng.next_u64() >> rng.below(64),
     };
-    let mut prev: Vec<Hash> = (0..if causal { n_prev } else { 0 }).map(|_| Hash::digest(rng.bytes(12))).collect();
+    let mut prev: Vec<Hash> = if causal { crafted_previous(rng, family, n_prev) } else { Vec::new() };
     rng.shuffle(&mut prev);
     let prune = !causal && rng.bool();
     (Intended { causal, topic, log_id, timestamp, prune, previous: prev.iter().copied().collect() }, prev)
@@ -209,7 +314,10 @@ pub fn run(args: &Args) {
         args,
         "random valid signed headers (payload present/absent, seq 0/1/random/u32::MAX with \
          backlink) carrying Node API extensions obtained by decoding a harness-encoded tuple: \
-         Basic (prune flag on/off, timestamp 0/max/random) and Causal with |previous| in 0..8. \
+         Basic (prune flag on/off, timestamp 0/max/random) and Causal with |previous| in 0..8, the \
+         hashes being real BLAKE3 digests or crafted 32-byte values (members sharing 1/4/8/16/31 \
+         leading bytes, differing only in the last or in one middle byte, all-zero / all-0xff and \
+         neighbours, crafted groups mixed with real digests, two prefix groups). \
          Per header: a clone and an independently decoded equal extensions value must encode and \
          hash identically and accept the same signature; Basic headers are decoded 3 times, Causal \
          headers 16 times (16 fresh HashSet instances): every decode equals the original, verifies, \
@@ -224,9 +332,14 @@ pub fn run(args: &Args) {
         let mut rng = Rng::fork(args.seed, i);
         let f = gen_fields(&mut rng);
         let causal = i % 3 != 0;
-        let n_prev = if causal { (i / 3 % 9) as usize } else { 0 };
+        let family = if causal { (i / 27 % FAMILIES.len() as u64) as usize } else { 0 };
+        // |previous| in 0..=8 (crafted families that cannot produce enough distinct members, e.g.
+        // all-equal-but-one-byte, may come out smaller; the actual size is what counts below).
+        let want_prev = if causal { (i / 3 % 9) as usize } else { 0 };
         let kind = if causal { "causal" } else { "basic" };
-        let (intended, prev) = gen_intended(&mut rng, causal, n_prev);
+        let (intended, prev) = gen_intended(&mut rng, causal, want_prev, family);
+        let n_prev = prev.len();
+        let shared = if causal { max_shared_prefix(&prev) } else { 0 };
         let ext_bytes = ext_tuple_bytes(&intended, &prev);
         // Wire path (the only public way to a Causal value).
         let from_wire = |what: &str, rep: &mut Report| -> Option<Extensions> {
@@ -264,6 +377,15 @@ pub fn run(args: &Args) {
         rep.add_evaluations(decodes as u64);
         if causal && n_prev >= 2 {
             causal_ge2 += 1;
+            rep.bump(&format!("causal_headers:family:{}", FAMILIES[family]), 1);
+            if shared >= 1 {
+                rep.bump("causal_headers_with_shared_prefix_pair(>=1 byte)", 1);
+            }
+            for k in [4usize, 8, 16, 31] {
+                if shared >= k {
+                    rep.bump(&format!("causal_headers_with_shared_prefix_pair(>={k} bytes)"), 1);
+                }
+            }
         }
         rep.bump(&format!("headers:{kind}"), 1);
         if let Some(first) = failed.first() {
@@ -272,14 +394,15 @@ pub fn run(args: &Args) {
             }
             rep.violation(
                 &format!("C02:{kind}:{first}"),
-                format!("{kind} extensions header (|previous| = {n_prev}): failed checks {failed:?}"),
+                format!("{kind} extensions header (|previous| = {n_prev}, hash family {}, longest shared prefix {shared} bytes): failed checks {failed:?}", FAMILIES[family]),
                 json!({"seed": args.seed, "case": i, "extensions_tuple_hex": hex(&ext_bytes), "previous": prev.iter().map(|h| h.to_string()).collect::<Vec<_>>(),
-                       "header_hex": hex(&original.to_bytes()), "seq_num": f.seq_num, "failed_checks": failed}),
+                       "header_hex": hex(&original.to_bytes()), "seq_num": f.seq_num, "failed_checks": failed,
+                       "hash_family": FAMILIES[family], "longest_shared_prefix_bytes": shared}),
             );
         }
         let shape = (f.payload.is_some(), match f.seq_num { 0 => 0u8, 1 => 1, u32::MAX => 3, _ => 2 });
         let valid = !failed.contains(&"generated-header-invalid");
-        rep.case(if valid { Some((causal, shape, n_prev, original.hash())) } else { None });
+        rep.case(if valid { Some((causal, shape, n_prev, family, original.hash())) } else { None });
         if rep.want_sample() && (i == 0 || i == 7 || i == 16) {
             rep.sample(json!({"case": i, "variant": kind, "previous": n_prev, "extensions_tuple_hex": hex(&ext_bytes), "header_hex": hex(&original.to_bytes()), "failed_checks": failed}));
         }
